@@ -56,7 +56,7 @@ def r_eff_seed(ctx: RuleCtx, col: Collector):
                         f"(a second sensitivity() call and finite_difference would see a changed seed)")
         if not bad:
             col.ok(where_of(f), f.rel, line_of(f.node), f"{f.short}: no sink reaches a seed",
-                   f"{len(an.sinks)} mutation sinks examined, {nsinks} on seed memory (all zero masks)")
+                   f"{an.n_sink_sites} mutation sites examined, {nsinks} on seed memory (all zero masks)")
         for t in an.unknown_index_sites:
             col.assume(t)
     dedupe(col)
@@ -163,7 +163,7 @@ def r_eff_resp(ctx: RuleCtx, col: Collector):
                 col.bad(where_of(f), f.rel, line_of(n), stmt_key(n), "add_sensitivity() called inside _response")
         if not bad:
             col.ok(where_of(f), f.rel, line_of(f.node), f"{f.short}: inputs and sensitivities untouched",
-                   f"{len(an.sinks)} mutation sinks examined")
+                   f"{an.n_sink_sites} mutation sites examined")
         for t in an.unknown_index_sites:
             col.assume(t)
     dedupe(col)
@@ -202,7 +202,7 @@ def r_eff_self(ctx: RuleCtx, col: Collector):
                     f"inside _sensitivity")
         if not bad:
             col.ok(where_of(f), f.rel, line_of(f.node), f"{f.short}: carries no state between calls",
-                   f"{len(an.attr_stores)} attribute stores, {len(an.sinks)} sinks examined")
+                   f"{len(an.attr_stores)} attribute stores, {an.n_sink_sites} mutation sites examined")
     dedupe(col)
 
 
@@ -317,7 +317,7 @@ def r_eff_solve(ctx: RuleCtx, col: Collector):
                                 f"update the result in place and would overwrite the caller's data")
             if not bad:
                 col.ok(where_of(f), f.rel, line_of(f.node), f"{f.short}: arguments untouched, result fresh",
-                       f"{len(an.sinks)} sinks examined; protected: {prot}")
+                       f"{an.n_sink_sites} mutation sites examined; protected: {prot}")
     # module-level helpers taking arrays used by solvers (orth)
     dedupe(col)
 
